@@ -25,7 +25,7 @@ from . import common
 
 ID = "C11"
 LEVEL = "exploration"
-KNOBS = {"p_firing_timeout": 0.12, "hows": ["execute"], "p_result": 0.7, "p_decisions": 0.5, "p_handler": 0.5, "p_abort": 0.35, "p_abort_if": 0.7,
+KNOBS = {"p_zero_attempts": 0.04, "p_firing_timeout": 0.12, "hows": ["execute"], "p_result": 0.7, "p_decisions": 0.5, "p_handler": 0.5, "p_abort": 0.35, "p_abort_if": 0.7,
          "p_budget": 0.3, "p_generous": 0.5, "p_ok": 0.15, "p_retryable": 0.8}
 RULE = ("seeded swarm over the execute entry points (Retry/Policy/RetryPolicy/from_config, +no-retry Policy, +breaker "
         "rejection; sync+async), abort at every poll index, handler decisions, plus a faulty sub-batch injecting raising "
@@ -144,6 +144,8 @@ def oracle(scn, trace):
                     bad.append("cause/last_class do not describe the exception")
         else:
             holds = set(last.holds) if last is not None else set()
+            if last is None and scn["cfg"]["max_attempts"] <= 0:
+                holds.add("MAX_ATTEMPTS_GLOBAL")      # no attempt is permitted at all
             if pre_aborted(cf) or (last is not None and last.a.kind == "abort"):
                 holds.add("ABORTED")
             if last is not None and not last.classified and last.a.kind in ("exc", "res") and last.first_true is not None:
